@@ -2,6 +2,7 @@
    Only statements, `exact`, Print Assumptions. *)
 From Coq Require Import QArith ZArith List Permutation.
 From FL Require Import Num ListX Containers Containers_proofs.
+From FL Require Import Disagg Disagg_proofs Disagg_ext Disagg_perm.
 Import ListNotations.
 
 (* the ingestion every fairlearn entry point is modelled with: containers that hold the same
@@ -56,3 +57,103 @@ Example C12_example_nontrivial :
   let rows := zip3 [1; 0; 1]%Z [1#1; 0#1; 1#2] [2#1; 1#1; 1#1] in
   keys rows = [0; 1]%Z /\ g_count rows 1 = 2%nat /\ g_wvsum rows 1 == 5#2.
 Proof. vm_compute. repeat split; reflexivity. Qed.
+
+(* ---------------------------------------------------------------------------------------------------
+   The same two statements on the REAL MetricFrame model (Disagg.mf_by_group / mf_overall: the frame
+   __init__ builds, the name glue, group-by, re-indexing), for every value type, cell type and family of
+   metric callables.
+   --------------------------------------------------------------------------------------------------- *)
+
+(* jointly permuting y_true, y_pred, every sample parameter and every sensitive / control feature column
+   by the index list pi (a permutation of 0..n-1) changes nothing: by_group and overall are EQUAL tables
+   (same index in the same order, same cells).  Hypothesis on the callables (fn_perm_inv): jointly
+   permuting all their equally long argument columns gives the same cell.  Guard: all columns have the
+   length of y_true (MetricFrame / pandas reject anything else). *)
+Theorem C12_metricframe_perm_invariance :
+  forall (V : Type) (key_of : V -> Z) (cell : Type)
+         (fn : name -> list (list V) -> list (name * list V) -> cell)
+         yt yp (ms : list (metric_spec V)) sfs cfs (pi : list nat),
+    fn_perm_inv V cell fn ->
+    lengths_ok V (length yt) yp ms sfs cfs ->
+    Permutation pi (seq 0 (length yt)) ->
+    mf_by_group V key_of cell fn (apply_perm pi yt) (apply_perm pi yp) (map (perm_spec pi) ms)
+                (perm_cols pi sfs) (perm_cols pi cfs)
+    = mf_by_group V key_of cell fn yt yp ms sfs cfs
+    /\ mf_overall V key_of cell fn (apply_perm pi yt) (apply_perm pi yp) (map (perm_spec pi) ms)
+                  (perm_cols pi sfs) (perm_cols pi cfs)
+       = mf_overall V key_of cell fn yt yp ms sfs cfs.
+Proof. exact by_group_perm. Qed.
+Print Assumptions C12_metricframe_perm_invariance.
+
+(* renaming the values of ONE sensitive feature (column `col` named nm, at any position) by r, whose effect
+   on the category codes is a STRICTLY MONOTONE map g: by_group is the same table with component
+   (#control features + position) of every index key renamed by g -- same order, same cells -- and overall
+   is unchanged.  Proved in full (equality of tables). *)
+Theorem C12_metricframe_relabel :
+  forall (V : Type) (key_of : V -> Z) (cell : Type)
+         (fn : name -> list (list V) -> list (name * list V) -> cell)
+         yt yp (ms : list (metric_spec V)) sfs1 nm col sfs2 cfs (r : V -> V) (g : Z -> Z) tbl,
+    NoDup (map fst (all_assigns V yt yp ms (sfs1 ++ (nm, col) :: sfs2) cfs)) ->
+    (forall a b, (a < b)%Z -> (g a < g b)%Z) ->
+    (forall v, In v col -> key_of (r v) = g (key_of v)) ->
+    mf_by_group V key_of cell fn yt yp ms (sfs1 ++ (nm, col) :: sfs2) cfs = Some tbl ->
+    mf_by_group V key_of cell fn yt yp ms (sfs1 ++ (nm, map r col) :: sfs2) cfs
+    = Some (rename_table (length cfs + length sfs1) g tbl)
+    /\ mf_overall V key_of cell fn yt yp ms (sfs1 ++ (nm, map r col) :: sfs2) cfs
+       = mf_overall V key_of cell fn yt yp ms (sfs1 ++ (nm, col) :: sfs2) cfs.
+Proof. exact by_group_relabel. Qed.
+Print Assumptions C12_metricframe_relabel.
+
+(* the same for ANY injective renaming of the codes (the index is re-sorted, so equality holds up to the
+   order of the rows): the new by_group is a permutation of the renamed old one, every renamed key holds
+   the old cell, overall is unchanged.  Proved in full. *)
+Theorem C12_metricframe_relabel_injective :
+  forall (V : Type) (key_of : V -> Z) (cell : Type)
+         (fn : name -> list (list V) -> list (name * list V) -> cell)
+         yt yp (ms : list (metric_spec V)) sfs1 nm col sfs2 cfs (r : V -> V) (g : Z -> Z) tbl,
+    NoDup (map fst (all_assigns V yt yp ms (sfs1 ++ (nm, col) :: sfs2) cfs)) ->
+    (forall a b, g a = g b -> a = b) ->
+    (forall v, In v col -> key_of (r v) = g (key_of v)) ->
+    mf_by_group V key_of cell fn yt yp ms (sfs1 ++ (nm, col) :: sfs2) cfs = Some tbl ->
+    exists tbl',
+      mf_by_group V key_of cell fn yt yp ms (sfs1 ++ (nm, map r col) :: sfs2) cfs = Some tbl'
+      /\ Permutation tbl' (rename_table (length cfs + length sfs1) g tbl)
+      /\ (forall k, In k (map fst tbl) ->
+            assoc (upd_key (length cfs + length sfs1) g k) tbl' = assoc k tbl)
+      /\ mf_overall V key_of cell fn yt yp ms (sfs1 ++ (nm, map r col) :: sfs2) cfs
+         = mf_overall V key_of cell fn yt yp ms (sfs1 ++ (nm, col) :: sfs2) cfs.
+Proof. exact by_group_relabel_inj. Qed.
+Print Assumptions C12_metricframe_relabel_injective.
+
+(* the hypothesis on the callables is satisfiable by a metric that needs its rows paired:
+   (sum w*y_pred, sum w), invariant under joint -- not separate -- permutations *)
+Theorem C12_perm_hypothesis_satisfiable : fn_perm_inv Z (Z * Z)%type wsel_fn.
+Proof. exact wsel_fn_perm_inv. Qed.
+Print Assumptions C12_perm_hypothesis_satisfiable.
+
+(* non-vacuity: 4 rows, two sensitive columns (an empty intersection), a control column, weights;
+   rotation by one row; renaming codes 0,1 of the first sensitive feature to 7,3 (not monotone) *)
+Example C12_metricframe_example :
+  let yt := [0; 3; 4; 7]%Z in let yp := [1; 0; 1; 1]%Z in
+  let ms := [ {| m_name := [109]%Z; m_prefix := n_None; m_params := [(n_sample_weight, [1; 2; 3; 4]%Z)] |} ] in
+  let sfs := [([115; 48]%Z, [0; 0; 1; 1]%Z); ([115; 49]%Z, [0; 0; 0; 1]%Z)] in
+  let cfs := [([99]%Z, [0; 1; 0; 0]%Z)] in
+  let pi := [1; 2; 3; 0]%nat in
+  lengths_ok Z (length yt) yp ms sfs cfs /\ Permutation pi (seq 0 (length yt))
+  /\ apply_perm pi yt = [3; 4; 7; 0]%Z
+  /\ NoDup (map fst (all_assigns Z yt yp ms sfs cfs))
+  /\ option_map (map fst) (mf_by_group Z (fun z => z) _ wsel_fn yt yp ms sfs cfs)
+     = Some [[0; 0; 0]; [0; 0; 1]; [0; 1; 0]; [0; 1; 1]; [1; 0; 0]; [1; 0; 1]; [1; 1; 0]; [1; 1; 1]]%Z
+  /\ option_map (map fst)
+       (mf_by_group Z (fun z => z) _ wsel_fn yt yp ms
+                    [([115; 48]%Z, map (fun v => if (v =? 0)%Z then 7 else 3)%Z [0; 0; 1; 1]%Z);
+                     ([115; 49]%Z, [0; 0; 0; 1]%Z)] cfs)
+     = Some [[0; 3; 0]; [0; 3; 1]; [0; 7; 0]; [0; 7; 1]; [1; 3; 0]; [1; 3; 1]; [1; 7; 0]; [1; 7; 1]]%Z.
+Proof.
+  cbv zeta. repeat split; try (vm_compute; reflexivity).
+  - repeat constructor.
+  - repeat constructor.
+  - repeat constructor.
+  - cbn. apply Permutation_sym. apply (Permutation_cons_app [1; 2; 3]%nat [] 0%nat). apply Permutation_refl.
+  - repeat constructor; cbn; intuition discriminate.
+Qed.
